@@ -71,7 +71,15 @@ def resolve_callable(v):
     return v
 
 
-def build_precond(model, cfg):
+def scale_at(cfg, ev):
+    """loss scale in force during event ev: constant, or ['table', [...]] indexed by the event (dynamic loss scaling)"""
+    v = cfg.get('grad_scale')
+    if isinstance(v, list) and v and v[0] == 'table':
+        return v[1][ev % len(v[1])]
+    return v or 1.0
+
+
+def build_precond(model, cfg, scale_holder=None):
     from kfac.preconditioner import KFACPreconditioner
     kw = {}
     for k in ('factor_update_steps', 'inv_update_steps', 'damping', 'factor_decay', 'kl_clip', 'lr'):
@@ -86,7 +94,10 @@ def build_precond(model, cfg):
         if k in cfg and cfg[k] is not None:
             kw[k] = getattr(torch, cfg[k])
     if cfg.get('grad_scale'):
-        kw['grad_scaler'] = lambda s=cfg['grad_scale']: s
+        if scale_holder is not None:
+            kw['grad_scaler'] = lambda h=scale_holder: h['s']
+        else:
+            kw['grad_scaler'] = lambda s=scale_at(cfg, 0): s
     if 'kl_clip' in cfg and cfg['kl_clip'] is None:
         kw['kl_clip'] = None
     return KFACPreconditioner(model, **kw)
@@ -100,13 +111,14 @@ def rank_body(cfg, history, W, observe=None, single_union=False, pre_step=None, 
 
     def body(rank):
         model = make_model(cfg['model'], cfg.get('model_seed', 0), dtype)
-        p = build_precond(model, cfg)
+        holder = {'s': scale_at(cfg, 0)}
+        p = build_precond(model, cfg, holder)
         sched = None
         if cfg.get('sched'):
             from kfac.scheduler import LambdaParamScheduler
             sched = LambdaParamScheduler(p, **{k + '_lambda': resolve_callable(v) for k, v in cfg['sched'].items()})
         obs = []
-        scale = cfg.get('grad_scale') or 1.0
+        scale = holder['s']
         if setup is not None:
             setup(rank, model, p)
 
@@ -122,10 +134,11 @@ def rank_body(cfg, history, W, observe=None, single_union=False, pre_step=None, 
                 wts = torch.cat(ws, 0)
             else:
                 wts = loss_weights(cfg, list(out.shape), ev, micro, rank, dtype)
-            (out * wts).sum().mul(scale).backward()
+            (out * wts).sum().mul(holder['s']).backward()
 
         for ev, e in enumerate(history):
             kind = e[0]
+            holder['s'] = scale = scale_at(cfg, ev)
             if kind == 'train':
                 model.train()
                 model.zero_grad()
@@ -170,7 +183,7 @@ def rank_body(cfg, history, W, observe=None, single_union=False, pre_step=None, 
                 # drop the old preconditioner's hooks (generic torch hook tables), then build a fresh one
                 for m in model.modules():
                     m._forward_pre_hooks.clear(); m._backward_hooks.clear()
-                p2 = build_precond(model, cfg)
+                p2 = build_precond(model, cfg, holder)
                 p2.load_state_dict(sd, compute_inverses=(e[2] if len(e) > 2 else True))
                 p = p2
                 if sched is not None:
